@@ -52,7 +52,12 @@ impl Handler for SimHandler {
     }
     fn on_connect_step(&self) {
         heap::off(|| {
-            self.connect_steps.set(self.connect_steps.get() + 1);
+            let c = self.connect_steps.get() + 1;
+            self.connect_steps.set(c);
+            // the ring assembly follows each result edge once: far more steps than events allowed means it does not end
+            if c > self.budget.get().saturating_mul(4).saturating_add(1000) {
+                std::panic::panic_any(BudgetExceeded);
+            }
             let t = self.ticks.get() + 1;
             self.ticks.set(t);
             if t == self.cancel_at.get() {
